@@ -188,6 +188,11 @@ func (c *Ctx) rwFreshPerRequest(w *Wrapper) {
 			c.Pass("wrapper-fresh-per-request", ckey, p.InstrPos(at), "the writer handed to the downstream handler is allocated for this request")
 			continue
 		}
+		if call, isCall := root.(*ssa.Call); isCall && returnsNewObject(StaticFn(call), 0) {
+			// built by a constructor helper every return of which yields a new object
+			c.Pass("wrapper-fresh-per-request", ckey, p.InstrPos(at), "the writer handed to the downstream handler is allocated for this request by "+CalleeName(call))
+			continue
+		}
 		// recycled object: which fields are (re)initialised before the hand-over?
 		set := map[string]bool{}
 		sp := c.rwSpec(w)
@@ -643,6 +648,7 @@ func (c *Ctx) rwHeaderTypestate(w *Wrapper) {
 		kind = "deferring"
 	}
 	c.rwFreshPerRequest(w)
+	c.rwWriteDoesNotRetain(w)
 	c.Pass("wrapper-classified", w.Key, pos, fmt.Sprintf("WriteHeader is %s; commit-implied flags %v; flags whose falsity means nothing was sent %v", kind, keys(f.Excusers), keys(f.CommitFlags)))
 	if kind == "mixed" {
 		c.Undecided("wrapper-classified", w.Key+"/WriteHeader", pos, "WriteHeader forwards on some paths and records on others; the typestate rules do not model this")
@@ -913,4 +919,103 @@ func (c *Ctx) assertBasedForwarders(ws []*Wrapper, self *Wrapper, method string)
 	}
 	sort.Strings(out)
 	return out
+}
+
+// rwWriteDoesNotRetain: io.Writer's contract — "Write must not retain p".  The slice a handler (or
+// the reverse proxy's copy loop, which recycles its buffer) passes to a wrapper's Write is only valid
+// during the call: a wrapper that keeps it — stores it, or a buffer/reader built directly on it, into
+// a field — later delivers whatever the caller has put into that memory since (C14, C15, C01).
+func (c *Ctx) rwWriteDoesNotRetain(w *Wrapper) {
+	p := c.P
+	rule := "write-does-not-retain"
+	for _, name := range []string{"Write", "WriteString", "ReadFrom"} {
+		fn := w.Methods[name]
+		if fn == nil || len(fn.Params) < 2 || name == "ReadFrom" {
+			continue
+		}
+		param := fn.Params[1]
+		tainted := map[ssa.Value]bool{param: true}
+		changed := true
+		for changed {
+			changed = false
+			instrsOf(fn, func(in ssa.Instruction) {
+				v, ok := in.(ssa.Value)
+				if !ok || tainted[v] {
+					return
+				}
+				hit := false
+				switch x := in.(type) {
+				case *ssa.Slice:
+					hit = tainted[x.X]
+				case *ssa.ChangeType:
+					hit = tainted[x.X]
+				case *ssa.MakeInterface:
+					hit = tainted[x.X]
+				case *ssa.Phi:
+					for _, e := range x.Edges {
+						hit = hit || tainted[e]
+					}
+				case *ssa.UnOp:
+					hit = x.Op == token.MUL && tainted[x.X] // *bytes.NewBuffer(b): the struct holding b
+				case *ssa.Call:
+					switch CalleeName(x) {
+					case "bytes.NewBuffer", "bytes.NewReader":
+						hit = len(x.Call.Args) == 1 && tainted[x.Call.Args[0]]
+					}
+				}
+				if hit {
+					tainted[v] = true
+					changed = true
+				}
+			})
+		}
+		bad := ""
+		instrsOf(fn, func(in ssa.Instruction) {
+			st, ok := in.(*ssa.Store)
+			if !ok || !tainted[st.Val] || bad != "" {
+				return
+			}
+			switch a := st.Addr.(type) {
+			case *ssa.FieldAddr:
+				if fr, ok := fieldRefOf(a); ok {
+					bad = p.InstrPos(st) + ": the caller's slice is kept in " + fr.Key() + " after Write returns"
+				}
+			case *ssa.Global:
+				bad = p.InstrPos(st) + ": the caller's slice is kept in a package variable after Write returns"
+			case *ssa.IndexAddr:
+				bad = p.InstrPos(st) + ": the caller's slice is kept in a container after Write returns"
+			}
+		})
+		c.Check(bad == "", rule, w.Key+"."+name, p.Pos(fn.Pos()), "the slice passed to "+name+" is only copied or forwarded during the call",
+			bad+": io.Writer forbids retaining it — the reverse proxy recycles its copy buffer and a handler may reuse its own, so the bytes delivered later are whatever was written there since")
+	}
+}
+
+// returnsNewObject: every return of fn yields an object allocated by that call (a composite literal
+// or new), possibly through another such constructor — not one taken from a pool, a field or a global.
+func returnsNewObject(fn *ssa.Function, depth int) bool {
+	if fn == nil || fn.Blocks == nil || depth > 3 {
+		return false
+	}
+	ok, n := true, 0
+	instrsOf(fn, func(in ssa.Instruction) {
+		r, isRet := in.(*ssa.Return)
+		if !isRet || len(r.Results) == 0 {
+			return
+		}
+		n++
+		switch v := rootOf(stripConv(r.Results[0])).(type) {
+		case *ssa.Alloc:
+			if !v.Heap {
+				ok = false
+			}
+		case *ssa.Call:
+			if !returnsNewObject(StaticFn(v), depth+1) {
+				ok = false
+			}
+		default:
+			ok = false
+		}
+	})
+	return ok && n > 0
 }
